@@ -65,6 +65,16 @@ CHECKS = {
         technique='explicit-state breadth-first search over histories of public API calls executed on the real model (states = histories replayed from seed models, merged by a canonical form of files, tree, membership, path index and referrer lists); invariants evaluated in every state, transition oracles on every transition',
         text="Every copy / copy-at transition (any live or foreign element into any plausible parent): content equals the source filtered by what the destination's version permits, apart from a numeric suffix on the copy's own name; every copied identifiable resolves by its path and every copied reference is listed; no element object is shared; the source model is unchanged. duplicate() in every state to depth 1: per-file text, tree, membership and indexes equal, and every operation of the full alphabet applied to either side leaves the other side's canonical form unchanged.",
         note='Trusted: equal canonical forms have equal futures; stale handles are swept per transition replay rather than kept in the state key. Histories longer than the depth bound and universes other than the six seed models are outside. A transition that hits a recorded known finding of any property is not expanded.'),
+    "C09": dict(
+        engine="histx", category="model_checking", design="DESIGN.md section 5, C09",
+        technique="exhaustive enumeration of file distributions: every assignment of a non-empty file subset to every child of a splittable element of five master models, sibling-order and version variants, every load order; every merge executed on the real loader and compared with the master tree and with each file loaded alone",
+        text="For five master models (nested packages, mixed-kind ELEMENTS bags, BSW containers and parameter values keyed by DEFINITION-REF) every distribution over 2 and 3 (thorough: also 4) files that splits only below splittable elements, with reversed sibling order and mixed versions per file, is loaded in every order: the merged model equals the master (each element once), every element is attributed to exactly the files that contained it, every file serialized from the merged model has the content of that file loaded alone, all C03-C05 invariants hold; the documented path conflict must be rejected and rejected files must leave no trace.",
+        note="Trusted: the splittable flags of the specification tables decide where a child may have its own file set. Masters with more slots than the tier's cap for a given number of files are skipped for that number (listed in the evidence)."),
+    "C14": dict(
+        engine="histx", category="model_checking", design="DESIGN.md section 5, C14",
+        technique="exhaustive permutation enumeration: every sub-multiset (up to a size) of an item pool per scenario, created in every order, sorted by the real code; results compared across all orders of one multiset",
+        text="Seven scenarios (packages with names a, a1, a2, a10, a1b, b; mixed kinds in an ELEMENTS bag; containers with INDEX values incl. 0x2; parameter values keyed by DEFINITION-REF with equal keys, different values and comments; references ordered by DEST; two ordered parents) x every sub-multiset of <= 5 (thorough 7) siblings x every distinct creation order: sort never panics, keeps every element object, value, attribute and comment, leaves ordered parents untouched, keeps all path/reference invariants and strict loadability, is idempotent, and gives the same text (comments aside) for every creation order.",
+        note="Trusted: comparison with comments removed (siblings identical up to comments may keep their order). Item pools are fixed; other names and sibling counts above the bound are outside."),
     "C07": dict(
         engine="specwalk", category="model_checking", design="DESIGN.md section 5, C07",
         technique="explicit-state exploration per content model: every datatype x version, every content state reachable by <= 2-3 creations, every candidate sub-element at every position (create-at, copy-at, move-at), every value/attribute candidate; each step executed through the real editing API and compared with the harness's own order checker and table-driven validator, then serialized and reloaded leniently",
